@@ -415,6 +415,8 @@ def corpus_cases():
 
 def run(ctx):
     ctx.prove(MODULE, THEOREMS, extra_targets=DRIVERS)
+    from . import platconf
+    platconf.run(ctx)        # the real platform.c keeps the contract detsched stands for (join waits for every joiner, notify_all wakes all, ...)
     exe, drv = build(ctx)
     stats = Stats()
     if not exe:
